@@ -242,6 +242,29 @@ func (se *ScriptEnv) transform(req, reply []byte) ([]byte, error) {
 			return refbmc.RMCP(refbmc.SessHdr(0, 0, 0, m)), nil
 		}
 		return nil, nil
+	case "garbage:unauth-hiseq", "garbage:othersid-hiseq", "garbage:badsig-hiseq", "garbage:unauth-seq0":
+		// datagrams that are not valid responses (unauthenticated / for another session / wrongly
+		// signed) and carry a BMC session sequence number far ahead of (or, for -seq0, behind) the
+		// real one: being no responses, they leave nothing behind
+		if last := se.BMC.Last(); last != nil && sess != nil && sess.Active {
+			hi := uint32(0xfffffff0) + uint32(st.attempt%8)
+			m := refbmc.RespMsg(last, 0, st.okBody)
+			switch o {
+			case "garbage:unauth-hiseq":
+				return sess.Wrap(m, refbmc.WrapOpts{NoAuthFlag: true, DropTrailer: true, NoEncrypt: true, Seq: &hi}), nil
+			case "garbage:unauth-seq0":
+				zero := uint32(0)
+				return sess.Wrap(m, refbmc.WrapOpts{NoAuthFlag: true, DropTrailer: true, NoEncrypt: true, Seq: &zero}), nil
+			case "garbage:othersid-hiseq":
+				other := sess.ConsoleSID ^ 0x00ff0000
+				return sess.Wrap(m, refbmc.WrapOpts{SID: &other, Seq: &hi}), nil
+			default:
+				d := sess.Wrap(m, refbmc.WrapOpts{Seq: &hi})
+				d[len(d)-1] ^= 0x01
+				return d, nil
+			}
+		}
+		return []byte{6, 0, 0xff, 7, 6}, nil
 	case "unauth":
 		// the right response, but unauthenticated and in the clear
 		if last := se.BMC.Last(); last != nil && sess != nil && sess.Active {
